@@ -769,16 +769,56 @@ func ruleR20_8(r *Run) {
 				return unknown, false
 			}}
 			s := runSCCP(f, env)
+			// what the failed call was to produce: its results, and the variables it fills through pointers
+			parsed := map[ssa.Value]bool{cv: true}
+			if cv.Referrers() != nil {
+				for _, ref := range *cv.Referrers() {
+					if ex, ok := ref.(*ssa.Extract); ok && ex != errV {
+						parsed[ex] = true
+					}
+				}
+			}
+			for _, a := range c.Common().Args {
+				if _, isPtr := a.Type().Underlying().(*types.Pointer); isPtr {
+					parsed[a] = true
+				}
+				// variables handed over by address, also inside a variadic argument list
+				for d := range dataDeps(a) {
+					if al, ok := d.(*ssa.Alloc); ok {
+						parsed[al] = true
+					}
+				}
+			}
+			carriesParsed := func(c2 ssa.CallInstruction) bool {
+				vals := append([]ssa.Value{}, c2.Common().Args...)
+				if c2.Common().IsInvoke() {
+					vals = append(vals, c2.Common().Value)
+				}
+				for _, a := range vals {
+					if parsed[a] {
+						return true
+					}
+					for d := range dataDeps(a) {
+						if parsed[d] {
+							return true
+						}
+					}
+				}
+				return false
+			}
+			// a write applies the failed parse when it is handed something the parse was to produce; the
+			// bookkeeping that finishes what earlier, well-formed parts of the request stored (flushing a
+			// batch, down-sampling, extents) is not an application of the malformed part
 			target := func(in ssa.Instruction) bool {
 				c2, ok := in.(ssa.CallInstruction)
 				if !ok {
 					return false
 				}
 				if isWrite(c2) {
-					return true
+					return carriesParsed(c2)
 				}
 				cal := c2.Common().StaticCallee()
-				return cal != nil && inRepo(cal) && writes.From(cal)
+				return cal != nil && inRepo(cal) && writes.From(cal) && carriesParsed(c2)
 			}
 			// stop at the next execution of the same call (a loop iteration parses afresh)
 			barrier := func(in ssa.Instruction) bool { return in == ssa.Instruction(c) }
